@@ -3,7 +3,8 @@ use std::collections::HashMap;
 use crate::ir::decl::{Decl, DeclKind, Module, TableDecl, TableExpr};
 use crate::ir::pl::*;
 use crate::pr::{Ty, TyKind, TyTupleField};
-use crate::Result;
+use crate::semantic::{NS_INFER, NS_INFER_MODULE, NS_PARAM, NS_SELF, NS_THAT, NS_THIS};
+use crate::{Error, Result};
 use crate::WithErrorInfo;
 
 impl super::Resolver<'_> {
@@ -19,6 +20,15 @@ impl super::Resolver<'_> {
                 path: self.current_module_path.clone(),
                 name: stmt.name().to_string(),
             };
+
+            // names the resolver uses for its own scopes and inference slots
+            if [NS_THIS, NS_THAT, NS_PARAM, NS_SELF, NS_INFER, NS_INFER_MODULE].contains(&ident.name.as_str()) {
+                return Err(Error::new_simple(format!(
+                    "`{}` is a reserved name and cannot be declared",
+                    ident.name
+                ))
+                .with_span(stmt.span));
+            }
 
             let mut def = match stmt.kind {
                 StmtKind::QueryDef(d) => {
